@@ -6,4 +6,6 @@ func Core() *Profile {
 }
 
 // AllProfiles lists every profile (used by checks that want any program the generator can produce).
-func AllProfiles() []*Profile { return []*Profile{Core()} }
+func AllProfiles() []*Profile {
+	return []*Profile{Core(), Calls(), Closures(), Meta(), Errors(), Coroutines()}
+}
